@@ -114,7 +114,7 @@ def gen_wellformed(r):
             parts.append((2 if isfile else 1, name, fn, ct, data))
         body += b"--" + b + b"--" + eol + epi
         if ok:
-            return b, body, {"preamble": pre, "parts": parts, "epilogue": epi, "lf": lf_mode}
+            return b, body, {"preamble": pre, "parts": parts, "epilogue": epi, "lf": lf_mode, "boundary": b}
 
 
 def gen_malformed(r):
@@ -150,10 +150,6 @@ def case_run(b, body, cuts, flags=0):
     return "mp\trun\t%s\t%d\t%s\t%s" % (hx(b), flags, hx(body), cuts)
 
 
-def case_prem(b, body, cuts):
-    return "mp\tprem\t%s\t%s\t%s" % (hx(b), hx(body), cuts)
-
-
 def cuts_for(r, n, all_single, nmulti):
     res = ["-", "*"]
     if all_single:
@@ -179,3 +175,304 @@ def gen_fb(r):
     for _ in range(1500):
         cases.append("mp\tfb\t" + hx(b"".join(r.choice(bits) for _ in range(r.randint(0, 8)))))
     return cases
+
+
+# ---------------------------------------------------------------- running
+
+def run_model_only(ctx, cases, tag):
+    """Ops that only exist on the model side (premises, reference semantics)."""
+    mexe = vf.build_model_driver(ctx)
+    lines, bad = vf.run_sharded(ctx, mexe, cases, tag)
+    if bad is not None:
+        raise vf.CheckError("model driver failed on %s case %d: rc=%s %s" % (tag, bad[0], bad[1], bad[2][-400:]))
+    return lines
+
+
+def parse_out(o):
+    """-> (parts, flags, params) or None; parts = list of 7-tuples of strings."""
+    try:
+        ps, f, q = o.rsplit(" ", 2)
+        parts = [] if ps == "-" else [tuple(p.split("|")) for p in ps.split(";")]
+        if any(len(p) != 7 for p in parts) or not f.startswith("F") or not q.startswith("Q"):
+            return None
+        return parts, int(f[1:]), q[1:]
+    except ValueError:
+        return None
+
+
+def epi_silent(epi, b):
+    """An epilogue that never reaches handle_data: a lone CR, or a bare line end followed by a proper prefix of the
+    delimiter (set aside for the boundary test and, with no current part, not replayed by finalize -- K2 without data)."""
+    if epi == b"\r":
+        return True
+    for eol in (b"\r\n", b"\n"):
+        if epi.startswith(eol):
+            rest = epi[len(eol):]
+            full = b"--" + b
+            return len(rest) < len(full) and full.startswith(rest)
+    return False
+
+
+def truth_errors(out, truth):
+    """Exactness oracle: the reported parts are the encoded ones, byte for byte; text parts are the parameters."""
+    po = parse_out(out)
+    if po is None:
+        return ["unparsable result line"]
+    parts, flags, q = po
+    errs = []
+    real = [p for p in parts if p[0] in ("1", "2")]
+    exp = truth["parts"]
+    if len(real) != len(exp):
+        errs.append("%d text/file parts reported, %d encoded" % (len(real), len(exp)))
+    for got, (t, name, fn, ct, data) in zip(real, exp):
+        want_ct = "NULL" if ct is None else hx(ct.lower())
+        if got[0] != str(t) or unhx(got[1]) != name or got[1] == "NULL":
+            errs.append("type/name: got %s/%s want %d/%s" % (got[0], got[1], t, hx(name)))
+        if (fn is None) != (got[2] == "NULL") or (fn is not None and unhx(got[2]) != fn):
+            errs.append("filename: got %s want %s" % (got[2], "NULL" if fn is None else hx(fn)))
+        if got[3] != want_ct:
+            errs.append("content type: got %s want %s" % (got[3], want_ct))
+        val = unhx(got[6]) if t == 2 else unhx(got[5])
+        if val != data:
+            errs.append("data: got %s want %s" % (hx(val), hx(data)))
+    if truth["preamble"]:
+        if not parts or parts[0][0] != "3" or unhx(parts[0][5]) != truth["preamble"]:
+            errs.append("preamble not reported exactly")
+    if truth["epilogue"] and not epi_silent(truth["epilogue"], truth["boundary"]):
+        if not parts or parts[-1][0] != "4" or unhx(parts[-1][5]) != truth["epilogue"]:
+            errs.append("epilogue not reported exactly")
+    wantq = ",".join("%s=%s" % (hx(name), "NULL" if not data else hx(data)) for (t, name, fn, ct, data) in exp if t == 1) or "-"
+    if q != wantq:
+        errs.append("parameters: got %s want %s" % (q, wantq))
+    return errs
+
+
+def shrink(ctx, b, body, cuts, still_bad, rounds=40):
+    """Greedy byte-range deletion while the predicate holds; cuts are re-clamped by the drivers."""
+    n = len(body)
+    step = max(1, n // 2)
+    evals = 0
+    while step >= 1 and rounds > 0:
+        cands = []
+        for i in range(0, len(body), step):
+            nb = body[:i] + body[i + step:]
+            if len(nb) < len(body):
+                cands.append(nb)
+        if not cands:
+            break
+        flags = still_bad(b, cands, cuts)
+        evals += len(cands)
+        hit = [c for c, f in zip(cands, flags) if f]
+        if hit:
+            body = hit[0]
+        else:
+            step //= 2
+        rounds -= 1
+    return body
+
+
+def adjust_cuts(cuts, n):
+    if cuts in ("-", "*"):
+        return cuts
+    return ",".join(str(min(int(c), n)) for c in cuts.split(","))
+
+
+def differs_from_model(ctx):
+    def f(b, bodies, cuts):
+        cases = [case_run(b, x, adjust_cuts(cuts, len(x))) for x in bodies]
+        before = ctx.cov["evaluations"]
+        i, m, crash = vf.correspond(ctx, "shrink", cases)
+        ctx.cov["evaluations"] = before
+        res = [x != y for x, y in zip(i, m)]
+        if crash is not None:
+            res = res[:crash[0]] + [True] + [False] * (len(cases) - crash[0] - 1)
+        return res + [False] * (len(cases) - len(res))
+    return f
+
+
+def chunking_dependent(ctx):
+    """Oracle-level predicate: inside the premises, chunked != whole on the implementation."""
+    def f(b, bodies, cuts):
+        cases = []
+        for x in bodies:
+            cases.append(case_run(b, x, adjust_cuts(cuts, len(x))))
+            cases.append(case_run(b, x, "-"))
+        prem = [case_prem(b, x, adjust_cuts(cuts, len(x))) for x in bodies]
+        before = ctx.cov["evaluations"]
+        i, m, crash = vf.correspond(ctx, "shrink", cases)
+        ctx.cov["evaluations"] = before
+        if crash is not None:
+            return [False] * len(bodies)
+        pl = run_model_only(ctx, prem, "shrink-prem")
+        return [pl[k].endswith("all=1") and i[2 * k] != i[2 * k + 1] for k in range(len(bodies))]
+    return f
+
+
+def case_prem(b, body, cuts, flags=0):
+    return "mp\tprem\t%s\t%d\t%s\t%s" % (hx(b), flags, hx(body), cuts)
+
+
+def case_ref(b, body, flags=0):
+    return "mp\tref\t%s\t%d\t%s" % (hx(b), flags, hx(body))
+
+
+REGRESSION = [
+    # (boundary, body, cuts) -- witnesses of the two repaired defects and of shapes the proofs split on
+    (b"BB", b"--BB", "-"), (b"BB", b"--BB", "*"), (b"BB", b"--BB--", "4"), (b"BB", b"x\r\n--BB", "-"), (b"BB", b"x\r\n--BB\r\n", "7"),
+    (b"BB", b'--BB\r\nContent-Disposition: form-data; name="a"\r\n\r\nv\r\n--BB--\r\n', "20"),
+    (b"BB", b'--BB\r\nContent-Disposition: form-data; name="a"\r\n\r\nv\r\n--BB--\r\n', "46"),
+    (b"BB", b'--BB\r\nContent-Disposition: form-data; name="a"\r\n\r\nv\r\n--BB--\r\n', "47"),
+    (b"BB", b'--BB\r\nContent-Disposition: form-data;\r\n name="a"\r\n\r\nv\r\n--BB--\r\n', "*"),
+    (b"BB", b"", "-"), (b"BB", b"\r", "-"), (b"BB", b"\n", "-"), (b"BB", b"--BB--\r\n\r\n", "*"), (b"", b"--\r\nx\r\n----", "*"),
+]
+
+
+def check(ctx):
+    pr = vf.proof_step(ctx, "Properties_C14")
+    r = ctx.rng
+    nwf, nmal = (1200, 5000) if ctx.thorough() else (130, 420)
+    meta = []                                   # (kind, boundary, body, cuts, truth)
+    for (b, body, c) in REGRESSION:
+        meta.append(("regression", b, body, c, None))
+        meta.append(("regression", b, body, "-", None))
+    for _ in range(nwf):
+        b, body, t = gen_wellformed(r)
+        for c in cuts_for(r, len(body), len(body) < (400 if ctx.thorough() else 260), 4):
+            meta.append(("wf", b, body, c, t))
+    for _ in range(nmal):
+        b, body = gen_malformed(r)
+        for c in cuts_for(r, len(body), len(body) < 100, 3):
+            meta.append(("malformed", b, body, c, None))
+    runs = [case_run(b, body, c) for (_, b, body, c, _) in meta]
+    fb = gen_fb(r)
+    impl, model, crash = vf.correspond(ctx, "S-mpart", runs + fb)
+    cases_all = runs + fb
+    if crash:
+        p = vf.report_crash(ctx, "S-mpart", cases_all, crash)
+        ctx.log("implementation crashed: %s" % p)
+    # (i) implementation vs model, everywhere
+    mm = vf.first_mismatches(impl, model, limit=50) if not crash else []
+    ctx.cov["suites"]["S-mpart"]["mismatches"] = len(mm)
+    for i in mm[:2]:
+        c = cases_all[i]
+        obj = {"kind": "implementation-differs-from-model", "suite": "S-mpart", "case": c, "implementation": impl[i], "model": model[i],
+               "theorem": "Properties_C14.v: the model is claimed faithful on every input; its theorems no longer speak about this code"}
+        if i < len(meta):
+            _, b, body, cuts, _ = meta[i]
+            sb = shrink(ctx, b, body, cuts, differs_from_model(ctx))
+            sc = case_run(b, sb, adjust_cuts(cuts, len(sb)))
+            before = ctx.cov["evaluations"]
+            ii, mo, cr = vf.correspond(ctx, "shrunk", [sc])
+            ctx.cov["evaluations"] = before
+            obj.update({"case": sc, "implementation": (ii[0] if ii else "crash"), "model": mo[0] if mo else None, "original_case": c})
+        vf.violation(ctx, "S-mpart-%d" % i, obj)
+    # premises (extracted predicates) and the reference semantics, model side only
+    prem = run_model_only(ctx, [case_prem(b, body, c) for (_, b, body, c, _) in meta], "prem")
+    refs = run_model_only(ctx, [case_ref(b, body) for (_, b, body, c, _) in meta], "ref")
+    # (ii) the property oracle on the IMPLEMENTATION, inside the premises
+    whole = {}
+    for (kind, b, body, c, t), o in zip(meta, impl):
+        if c == "-":
+            whole[(b, body)] = o
+    inside = 0
+    reported = 0
+    keys = set()
+    classes = {}
+    for k, ((kind, b, body, c, t), o, p, rf) in enumerate(zip(meta, impl, prem, refs)):
+        ok = p.endswith("all=1")
+        po = parse_out(o)
+        keys.add((kind, ok, po[1] if po else -1, tuple(x[0] for x in po[0]) if po else ()))
+        classes[kind + ("/inside" if ok else "/outside")] = classes.get(kind + ("/inside" if ok else "/outside"), 0) + 1
+        if not ok or crash:
+            continue
+        inside += 1
+        why = None
+        if o != whole[(b, body)]:
+            why = ("chunking-dependent", {"whole": whole[(b, body)]})
+        elif rf.rsplit(" ", 1)[0] != o:
+            why = ("differs-from-reference-semantics", {"reference": rf})
+        elif t is not None:
+            errs = truth_errors(o, t)
+            if errs:
+                why = ("parts-not-exact", {"errors": errs[:6]})
+        if why and reported < 2:
+            reported += 1
+            sb = body
+            if why[0] == "chunking-dependent":
+                sb = shrink(ctx, b, body, c, chunking_dependent(ctx))
+            sc = case_run(b, sb, adjust_cuts(c, len(sb)))
+            before = ctx.cov["evaluations"]
+            ii, _, _ = vf.correspond(ctx, "shrunk", [sc, case_run(b, sb, "-")])
+            ctx.cov["evaluations"] = before
+            obj = {"kind": why[0], "suite": "S-mpart", "case": sc, "whole_case": case_run(b, sb, "-"), "implementation": ii[0] if ii else None,
+                   "implementation_whole": ii[1] if len(ii) > 1 else None, "original_case": runs[k], "premises": p,
+                   "theorem": "C14_byte_refinement_partial / C14_exact_partial: inside the premises the model cannot show this"}
+            obj.update(why[1])
+            vf.violation(ctx, "oracle-%d" % k, obj)
+    ctx.log("oracle evaluated on %d of %d cases (inside the premises); classes: %s" % (inside, len(meta), classes))
+    # (iii) the defects of the unchanged tree: replayed from the committed file
+    for kf in vf.known_for("C14", "known"):
+        sig = kf["signature"]
+        before = ctx.cov["evaluations"]
+        ii, mo, cr = vf.correspond(ctx, "known", [sig["case"], sig["whole_case"]])
+        ctx.cov["evaluations"] = before
+        if cr is None and len(ii) == 2 and ii[0] != ii[1] and ii == mo:
+            ctx.known.append("id=%s failure=%s case=%s" % (kf["id"], sig["failure"], sig["case"].replace("\t", " ")))
+        elif cr is None and len(ii) == 2 and ii[0] == ii[1]:
+            ctx.notes.append("known finding %s is no longer exhibited by the implementation (candidate for status fixed)" % kf["id"])
+    for kf in vf.known_for("C14", "fixed"):
+        sig = kf["signature"]
+        before = ctx.cov["evaluations"]
+        ii, mo, cr = vf.correspond(ctx, "fixed", [sig["case"], sig["whole_case"]])
+        ctx.cov["evaluations"] = before
+        if cr is not None:
+            vf.report_crash(ctx, "fixed-%s" % kf["id"], [sig["case"], sig["whole_case"]], cr)
+        elif ii != mo or ii[0] != ii[1]:
+            vf.violation(ctx, "regression-%s" % kf["id"], {"kind": "fixed-finding-regressed", "finding": kf["id"], "case": sig["case"], "whole_case": sig["whole_case"],
+                                                             "implementation": ii[0], "implementation_whole": ii[1], "model": mo[0]})
+    vf.note_distinct(ctx, keys)
+    for s in (0, len(meta) // 3, 2 * len(meta) // 3):
+        vf.sample(ctx, {"suite": "S-mpart", "case": runs[s][:400], "result": impl[s][:300] if s < len(impl) else None, "premises": prem[s]})
+    ctx.cov["exhaustive"] = False
+    ctx.cov["classes"] = classes
+    ctx.cov["oracle_evaluations_inside_premises"] = inside
+    rule = ("S-mpart: %d grammar-derived well-formed bodies (boundaries incl. '-', '--', RFC-unusual characters; 0..4 parts; names/filenames with escaped "
+            "quotes, backslashes, 8-bit bytes; binary data built from CR, LF, dashes, prefixes of the delimiter; optional preamble/epilogue; CRLF or LF "
+            "line ends) and %d malformed ones (mutated well-formed bodies, truncations, random concatenations of delimiter/header fragments), each "
+            "delivered whole, one byte per call, with EVERY single cut (bodies below the size bound) and random multi-cuts, every chunk in an exact-size heap "
+            "block under ASan+UBSan; %d Content-Type headers for htp_mpartp_find_boundary. Oracle (chunked == whole == reference semantics, parts == "
+            "generator ground truth, text parts == parameters) on the implementation inside the extracted premises mp_premb; distinct_nontrivial = "
+            "distinct (generator kind, inside/outside, flags, part-type sequence)." % (nwf, nmal, len(fb)))
+    return vf.standard_epilogue(ctx, pr, "make Props/Properties_C14.vo (coqc 8.16.1) + ./check C14", rule,
+                                ["file extraction to disk is not modelled (extract_request_files off)",
+                                 "bstr_builder is modelled by its abstract value (append/size/to_str/clear); boundary_pieces keeps its pieces",
+                                 "allocation failure paths belong to C18",
+                                 "chunking theorem premises: boundary without CR/LF; no CR-after-set-aside-CR cut (K1); no set-aside tail without a part at finalize (K2); "
+                                 "no data handed to an UNKNOWN part after the last boundary in data mode (K3); no delimiter right after an unterminated part header line (K4)"])
+
+
+def replay(ctx, path):
+    obj = json.load(open(path))
+    c = obj.get("case")
+    if not c:
+        print("replay file names no input:", obj.get("kind"), obj.get("theorem_file"))
+        return 1
+    cases = [c] + ([obj["whole_case"]] if obj.get("whole_case") else [])
+    i, m, crash = vf.correspond(ctx, "replay", cases)
+    bad = crash is not None or i != m
+    print("kind:", obj.get("kind"))
+    for k, cs in enumerate(cases):
+        print("case:", cs.replace("\t", " "))
+        print("  implementation:", i[k] if k < len(i) else crash)
+        print("  model         :", m[k] if k < len(m) else None)
+    if len(cases) == 2 and not crash and obj.get("kind") in ("chunking-dependent", "fixed-finding-regressed"):
+        f = cases[0].split("\t")
+        p = run_model_only(ctx, [case_prem(unhx(f[2]), unhx(f[4]), f[5])], "replay-prem")[0]
+        print("  premises      :", p)
+        if i[0] != i[1] and (p.endswith("all=1") or obj.get("kind") == "fixed-finding-regressed"):
+            print("  chunked delivery differs from whole delivery inside the premises")
+            bad = True
+    if obj.get("kind") == "parts-not-exact":
+        print("  expected errors at the time of the report:", obj.get("errors"))
+        bad = True
+    return 1 if bad else 0
